@@ -634,6 +634,7 @@ pub fn run_scenario(
     transcripts.truncate(resize(skew[2]));
 
     let mode = mode_of(sc["mode"].as_str().unwrap());
+    let mut raw_masks: Vec<Option<Vec<Scalar>>> = vec![];
     out.real_len = stmts.len();
     let r = catch_unwind(AssertUnwindSafe(|| RangeProof::<P>::verify_batch(&mut transcripts, &stmts, &vproofs, mode)));
     let (mev, gev) = if rec.is_some() { (merlin::trace::stop(), grec_stop()) } else { (vec![], Default::default()) };
@@ -649,6 +650,7 @@ pub fn run_scenario(
         Ok(Ok(masks)) => {
             out.verify = "ok".into();
             out.nres = masks.len();
+            raw_masks = masks.iter().map(|m| m.as_ref().and_then(|mk| mk.blindings().ok())).collect();
             out.masks = (0..members.len())
                 .map(|x| match masks.get(pos_of[x]) {
                     Some(mk) => mask_class(mk, &blind_ref[pos_of[x]]),
@@ -668,7 +670,7 @@ pub fn run_scenario(
             kind: "verify",
             merlin: mev,
             group: gev,
-            info: call_info(&stmts, &vproofs, &labels, sc["mode"].as_str().unwrap(), &out.verify, transcripts.len(), if pair { "pert" } else { "single" }, sc),
+            info: call_info_m(&stmts, &vproofs, &labels, sc["mode"].as_str().unwrap(), &out.verify, transcripts.len(), if pair { "pert" } else { "single" }, sc, &raw_masks),
         });
     }
     out.nres = if out.verify == "ok" { out.nres } else { 0 };
@@ -678,7 +680,12 @@ pub fn run_scenario(
 
 /// what the trace emitter needs to know about one verify_batch call
 pub fn call_info(stmts: &[RangeStatement<P>], vproofs: &[RangeProof<P>], labels: &[u64], mode: &str, result: &str, ntrans: usize, pair: &str, sc: &Value) -> Value {
-    json!({"mode": mode, "result": result, "nstmts": stmts.len(), "nproofs": vproofs.len(), "ntrans": ntrans, "pair": pair,
+    call_info_m(stmts, vproofs, labels, mode, result, ntrans, pair, sc, &[])
+}
+#[allow(clippy::too_many_arguments)]
+pub fn call_info_m(stmts: &[RangeStatement<P>], vproofs: &[RangeProof<P>], labels: &[u64], mode: &str, result: &str, ntrans: usize, pair: &str, sc: &Value, masks: &[Option<Vec<Scalar>>]) -> Value {
+    json!({"mode": mode, "result": result,
+        "masks": masks.iter().map(|m| m.as_ref().map(|v| v.iter().map(|s| s.as_bytes().to_vec()).collect::<Vec<_>>())).collect::<Vec<_>>(), "nstmts": stmts.len(), "nproofs": vproofs.len(), "ntrans": ntrans, "pair": pair,
         "first": sc["first"].as_u64().unwrap_or(0), "wdiff": sc["wdiff"].as_bool().unwrap_or(false),
         "members": (0..stmts.len().min(vproofs.len())).map(|x| json!({
             "n": stmts[x].generators.bit_length(), "t": stmts[x].generators.extension_degree() as usize,
@@ -689,6 +696,7 @@ pub fn call_info(stmts: &[RangeStatement<P>], vproofs: &[RangeProof<P>], labels:
             "H": stmts[x].generators.h_base_compressed().as_fixed_bytes().to_vec(),
             "G": stmts[x].generators.g_bases_compressed().iter().map(|c| c.as_fixed_bytes().to_vec()).collect::<Vec<_>>(),
             "seeded": stmts[x].seed_nonce.is_some(),
+            "seed": stmts[x].seed_nonce.map(|s| s.as_bytes().to_vec()),
         })).collect::<Vec<_>>()})
 }
 
@@ -1101,7 +1109,7 @@ pub fn ref_prove(stmt: &RangeStatement<P>, vals: &[u64], blinds: &[Vec<Scalar>],
     let mut gs: Vec<P> = stmt.generators.gi_base_iter().take(nm).cloned().collect();
     let mut hs: Vec<P> = stmt.generators.hi_base_iter().take(nm).cloned().collect();
     let mut rng = ChaCha12Rng::seed_from_u64(rng_seed);
-    let mut draw = |rng: &mut ChaCha12Rng| -> Scalar {
+    let draw = |rng: &mut ChaCha12Rng| -> Scalar {
         let mut w = [0u8; 64];
         rng.fill_bytes(&mut w);
         Scalar::from_bytes_mod_order_wide(&w)
